@@ -342,6 +342,18 @@ print errmsg[0]
 		if ct.kind == "string" {
 			return
 		}
+		if form == "store" && strings.Contains(ct.decl, "[]string") && n > 0 {
+			// strings cannot be changed through an index, wherever the string sits
+			for _, body := range []string{"s[0][0] = \"x\"\n", "s[-1][-1] = \"x\"\n", "ms := {name:s[0]}\nms.name[0] = \"x\"\n", "ms := {name:s[0]}\nms[\"name\"][0] = \"x\"\n", "g := [s s]\ng[1][0][0] = \"x\"\n", "am := [{k:s[0]}]\nam[0].k[0] = \"x\"\n"} {
+				src := c11Prog(ct, body+"print s\n")
+				c.Journal(src)
+				c.Event("accesses", 1)
+				o := plat.Run(src, plat.Opts{YieldBudget: 5000})
+				if o.Class != "parse-error" {
+					c.Violation("string-element-store-accepted", fmt.Sprintf("assignment to a character of a string element was not rejected by the parser: %s %q %v", o.Class, o.ErrText, o.Events), src, nil)
+				}
+			}
+		}
 		for _, ix := range idx {
 			var body string
 			val, valP := "", ""
